@@ -63,10 +63,12 @@ def shapeOfJson? (j : Json) : Option Shape :=
 def dtOfStr? : String → Option DT
   | "float32" => some .f32 | "float64" => some .f64
   | "complex64" => some .c64 | "complex128" => some .c128
+  | "int32" => some .i32 | "int64" => some .i64 | "bool" => some .bool
   | _ => none
 
 def dtStr : DT → String
   | .f32 => "float32" | .f64 => "float64" | .c64 => "complex64" | .c128 => "complex128"
+  | .i32 => "int32" | .i64 => "int64" | .bool => "bool"
 
 def handler : Handler := fun op j =>
   match op with
@@ -110,7 +112,7 @@ def handler : Handler := fun op j =>
     some (ok (jB (usesGrad String.toLower m)))
   | "dtype" => do
     let d ← dtOfStr? (← fStr? j "dtype")
-    some (ok (jObj [("work", jS (dtStr d.work)), ("result", jS (dtStr (resultDType d)))]))
+    some (ok (jObj [("work", jS (dtStr d.work)), ("result", jS (dtStr (resultDType d))), ("accepted", jB d.isInexact)]))
   | _ => none
 
 def main : IO Unit := mainLoop handler
